@@ -126,12 +126,69 @@ SCRIPTS = [
          {"op": "resp", "kind": "block", "h": 5, "r": "bad", "ver": 1, "corr": "receipt"},  # must be refetched
      ]},
 ]
+
+
+# ---- directed scenarios derived from the specification's answer alphabet (Sync.tla: ForgedKinds, EmptyDiff,
+# KeepsHash) and from the counterexamples of its two expected-violation configurations
+FORGERIES = ["diff-resealed", "root-resealed", "oldroot"]                 # Sync.tla ForgedKinds
+SHAPES = ["empty", "emptydiff", "declare", "nonceonly", "full"]           # the first two: EmptyDiff
+KEEPS_HASH = ["tx", "receipt", "timestamp", "diff", "root", "parent"]     # altered content under the honest hash
+
+
+def forged_scripts():
+    """Sync_x_emptyroot.cfg: a forged copy (every kind, one after the other at the same height) of a block of
+    every shape, at the first height after genesis / in the middle / at the tip, on both state backends.  Only
+    the state-root checks of Store stand between these answers and the database."""
+    out = []
+    L = 6
+    for i, shape in enumerate(SHAPES):
+        for j, new_state in enumerate((False, True)):
+            h = (1, 3, L - 1)[(i + j) % 3]
+            out.append({
+                "name": "forged-%s-h%d-%s" % (shape, h, "new" if new_state else "legacy"), "seed": 30 + 2 * i + j,
+                "mode": "script", "new_state": new_state, "init_len": L, "plan": [], "shapes": {str(h + 1): shape},
+                "decisions": [{"op": "sync", "below": h, "len": h, "reqs": [h]}] + [
+                    {"op": "resp", "kind": "block", "h": h, "r": "fg", "ver": 1, "corr": k} for k in FORGERIES]})
+    return out
+
+
+def refetch_scripts():
+    """Sync_x_memo.cfg: block N+1 is served honestly and verified, but dropped by a stream reset before it can be
+    stored (the reset is caused by what happens to block N, answered AFTER N+1 — two fetchers in flight); every
+    later request for N+1 is answered with altered content under the honest header, one kind after the other.
+    Causes of the reset: N invalid (verification fails) / a valid block of another height / a forged N (Store
+    fails) / none at all: N is stored and the node leaves catch-up mode."""
+    out = []
+    L = 9
+    causes = {
+        "late-invalid": (5, {"r": "bad", "corr": "timestamp"}),
+        "wrong-height": (5, {"r": "wh", "bh": 7}),
+        "forged": (5, {"r": "fg", "corr": "root-resealed"}),
+        "mode-switch": (L - 3, {"r": "ok"}),          # highest = L-1 = N + Lag: storing N ends catch-up mode
+    }
+    for i, (cause, (n, first)) in enumerate(sorted(causes.items())):
+        for j, new_state in enumerate((False, True)):
+            ds = [{"op": "sync", "below": n, "len": n, "reqs": [n, n + 1]},
+                  {"op": "resp", "kind": "block", "h": n + 1, "r": "ok", "ver": 1},
+                  dict({"op": "resp", "kind": "block", "h": n, "ver": 1}, **first)]
+            rot = KEEPS_HASH[(i + j) % len(KEEPS_HASH):] + KEEPS_HASH[:(i + j) % len(KEEPS_HASH)]
+            ds.append({"op": "sync", "below": n + 1, "len": n + 1, "reqs": [n + 1]})
+            for c in rot:
+                ds.append({"op": "resp", "kind": "block", "h": n + 1, "r": "bad", "ver": 1, "corr": c})
+            out.append({"name": "refetch-%s-%s" % (cause, "new" if new_state else "legacy"), "seed": 50 + 2 * i + j,
+                        "mode": "script", "new_state": new_state, "init_len": L, "plan": [],
+                        "shapes": {str(n + 2): "full"}, "decisions": ds})
+    return out
+
+
+SCRIPTS += forged_scripts() + refetch_scripts()
 SCRIPT_KEYS = {"h13-stale-successor": K_H13, "corrupt-remote-header": K_RVV, "underflow-new-genesis": K_UFL}
 
 ENV_EVENTS = ("Reset", "Src", "Stop", "Restart", "Resp", "RespLatest", "End")
 # monitor findings about things the trace does not contain (values retained after delivery, reads by a concurrent
 # goroutine, content read back from the database): TLC has no say on them
 OUTSIDE_TRACE = ("notification-mutated-after-delivery", "source-block-mutated-by-node", "stored-block-differs-from-source",
+                 "stored-block-fails-reverification",
                  "stored-block-unreadable", "reader-saw-head-that-is-no-source-block", "highest-header-is-no-source-block",
                  "starting-header-wrong-height", "reader-panicked")
 
@@ -161,6 +218,7 @@ def trace_cfg(sw, w=GOMAXPROCS):
     return ("CONSTANTS\n  InitLen = 1\n  MaxLen = 1000\n  MaxSrcSteps = 1000\n  MaxReorgs = 1000\n  MaxNew = 1000\n"
             "  W = %d\n  WV = %d\n  Lag = %d\n  MaxFaults = 1000000\n  MaxPolls = 1000000\n  MaxRestarts = 1000000\n"
             "  FixH13 = %s\n  FixRevertVerify = %s\n  FixUnderflow = %s\n  Fine = TRUE\n"
+            "  EmptyDiff = {}\n  RootCheckedOnEmptyDiff = TRUE\n  VerdictPerAnswer = TRUE\n"
             "INIT TraceInit\nNEXT TraceNext\nCONSTRAINT TraceConstraint\nPOSTCONDITION TraceAccepted\nCHECK_DEADLOCK FALSE\n"
             % (w, w, w, b(sw["FixH13"]), b(sw["FixRevertVerify"]), b(sw["FixUnderflow"])))
 
@@ -384,16 +442,27 @@ def run(ctx):
     if design:
         # the three quick configurations are independent: run them side by side
         from concurrent.futures import ThreadPoolExecutor
-        with ThreadPoolExecutor(max_workers=3) as pool:
+        with ThreadPoolExecutor(max_workers=5) as pool:
             f1 = pool.submit(ctx.tlc_check, "sync", "MCSync.tla", "Sync_quick.cfg", timeout=900,
                              label="repaired: safety+liveness (chain<=3)")
             f2 = pool.submit(ctx.tlc_check, "sync", "MCSync.tla", "Sync_restart.cfg", timeout=900,
                              label="repaired, one stop/restart of the node: safety+liveness+RestartIsNoOp")
             f3 = pool.submit(ctx.tlc_check, "sync", "MCSync.tla", "Sync_h13.cfg", timeout=900, expect_violation=True,
                              label="as coded (H13): RevertsJustified must fail")
+            # self-tests of StoredOnlyVerified ("what the database holds is the source's block"): with one of the
+            # two mechanisms between a faulty answer and the database switched off, TLC must find a forged /
+            # altered block in the database (the histories the directed scenarios below reproduce on the code)
+            f4 = pool.submit(ctx.tlc_check, "sync", "MCSync.tla", "Sync_x_emptyroot.cfg", timeout=900, expect_violation=True,
+                             label="root checks skipped for blocks without diff entries: StoredOnlyVerified must fail")
+            f5 = pool.submit(ctx.tlc_check, "sync", "MCSync.tla", "Sync_x_memo.cfg", timeout=900, expect_violation=True,
+                             label="verdict remembered by claimed hash: StoredOnlyVerified must fail")
             f1.result()
             f2.result()
             r = f3.result()
+            for f, what in ((f4, "root checks skipped on empty diffs"), (f5, "verdict remembered by claimed hash")):
+                rx = f.result()
+                if rx["violated"] != "StoredOnlyVerified":
+                    raise vlib.Broken("the model with %s does not violate StoredOnlyVerified (got %s)" % (what, rx["violated"]))
         if r["violated"] != "RevertsJustified":
             raise vlib.Broken("the faithful model no longer exhibits H13 (got %s)" % r["violated"])
     if thorough and design:
@@ -447,7 +516,7 @@ def run(ctx):
         "at a version that was current at some moment between the request and its delivery",
         "a source call whose context is cancelled fails (as the feeder client does)",
         "stale latest-header answers are heights of the answering version's own chain",
-        "wrong-height and forged (re-sealed state diff) answers are given to the fetch pipeline only; the revert loop "
+        "wrong-height and forged (re-sealed state diff / re-sealed new root / wrong old root) answers are given to the fetch pipeline only; the revert loop "
         "is answered honestly, with an error or with a corrupted copy (a wrong-height answer there would be one more "
         "instance of the known unverified-remote-header defect)",
         "goroutine scheduling inside the node between two source calls is whatever the Go runtime did in the recorded "
@@ -460,5 +529,10 @@ def run(ctx):
         "<= 2 injected faults; safety as action properties, convergence under per-action weak fairness, no state "
         "constraint) + recorded runs of the real Synchronizer (3 scripted defect reproductions + seeded random source "
         "scripts: chains of 3-14 blocks, 0-3 source steps, errors / corrupt blocks / forged blocks with a re-sealed state diff / valid blocks of another height / stale heads / late answers; block formats 0.13.1-0.14.1), each "
-        "validated by TLC against SyncTrace.tla and by the property monitors; a run is non-trivial when it contains a "
+        "validated by TLC against SyncTrace.tla and by the property monitors; block shapes full / multi / empty / emptydiff / "
+        "nonce-only / declare-only; answers chosen per request (a re-fetched block is a favourite target for altered content "
+        "under the honest header); directed scenarios: every forgery kind x every shape x first / middle / tip height x both "
+        "state backends, and re-fetch after a stream reset (4 causes) answered with altered content under the honest hash "
+        "(6 kinds); every stored block is read back at store time and re-verified independently (recomputed hash and "
+        "commitments, content = the source's block, state tries re-hashed = the honest root); a run is non-trivial when it contains a "
         "source step or a revert (counted in runs_with_source_steps / runs_with_reverts)")
